@@ -50,8 +50,13 @@ Init == /\ st = InitState
         /\ lastop = [op |-> "init"]
         /\ hist = <<>>
 
+\* generator profile: a history ends with the statement after which the pinned implementation is
+\* unusable (it closed an inheritance cycle, or redefined a deleted name - see Config_Trace)
+Usable(s) == \A c \in Ids(s) : ~s.nodes[c].fz /\ ~s.nodes[c].ofz
+
 Next == \E o \in Ops :
           /\ Len(hist) < Depth
+          /\ (EmitMode # "none" => Usable(st))
           /\ Enabled(st, o)
           /\ st' = Apply(st, o)
           /\ prev' = st
